@@ -714,6 +714,8 @@ func (w *world) exec(line string) {
 		var sec securememory.Secret
 		var err error
 		st := &secT{impl: impl}
+		attempts := 0
+	again:
 		guard(func() {
 			dataLen = n
 			if f[0] == "new" {
@@ -744,6 +746,24 @@ func (w *world) exec(line string) {
 				o.res = "nil-secret"
 			}
 		})
+		// memguard draws its own random bytes: a (short) random secret consisting of zero bytes only
+		// cannot be told from a wiped one, so every later content class of this secret would be a coin
+		// toss (1/256 for one byte).  Discard such a draw and run the operation again.
+		if f[0] == "rand" && impl == "mg" && sh != nil && attempts < 16 && !w.dead {
+			sh.mu.Lock()
+			amb := sh.last != nil && sh.last.kind == "rand" && sh.last.ref != nil && allZero(sh.last.ref)
+			sh.mu.Unlock()
+			if amb {
+				attempts++
+				if o.res == "ok" && sec != nil {
+					sec.Close()
+				}
+				sec, err, o = nil, nil, obs{}
+				if begin(f[1]) {
+					goto again
+				}
+			}
+		}
 		if o.res == "ok" {
 			st.s = sec
 			if impl == "pm" {
